@@ -1,21 +1,168 @@
-import AlgoVerif.Model.AcctUpdates
-/-! C10 — paginated listings return each resource exactly once (theorems; work in progress). -/
-namespace AlgoVerif.Props.C10
-open AlgoVerif.Spec.LedgerHistory AlgoVerif.Model.AcctUpdates
+import AlgoVerif.Lemmas.AcctUpdatesPages
+import AlgoVerif.Props.C08
+/-!
+# C10 — paginated listings return each resource exactly once
 
-/-- the page rule never returns more than `limit` items (limit ≥ 1) and returns at least one item of a non-empty list -/
-theorem kvTrim_bounds {α : Type} (sz : α → Nat) (maxb limit : Nat) (l : List α) (i acc : Nat) :
-    i ≤ kvTrim sz maxb limit l i acc ∧ kvTrim sz maxb limit l i acc ≤ i + l.length := by
+Oracle: `Spec.LedgerHistory.liveKv / liveAssets / liveApps` — the resources present at the queried round, from the HISTORY.
+Theorems proved here (all inputs, every limit / byte cap / prefix / cursor):
+
+* `listing_strictly_increasing`  the live box list has strictly increasing keys: no box twice;
+* `listing_after_cursor`         the listing from the cursor "key of the n-th element" is exactly the rest of the listing
+                                 (exclusive cursor: nothing skipped, nothing repeated);
+* `pages_cover`                  ANY pager whose pages are non-empty prefixes of what is left and whose moreData flag is set exactly
+                                 when something is left (`KvPageContract`), iterated with next-token = last key returned,
+                                 enumerates the live list exactly once, in order, and stops exactly at the end;
+* `page_rule_*`                  the limit / byte-cap rule (`kvTrim`, shared by the model): at least one item, at most `limit`;
+* `db_scan_is_prefix`            the DB cursor scan (`processKvRows`: exclusive cursor, exclusion set, byte budget with "at least
+                                 one", stop at limit, peek) returns a non-empty prefix of the qualifying rows and `more` exactly
+                                 when a qualifying row is left;
+* `page_limit0_unlimited`        (F3) a page with limit 0 is not cut by the count rule.
+
+Partial (full statements kept as `def …Statement : Prop`): that the code-shaped page functions of `Model.AcctUpdates`
+(`pageKv`, `pageAssets`, `pageApps`: delta walk, over-request, dbHasMore/dbMaxID cut, delta-only merge, sort, truncate) satisfy
+the contract on every reachable state is NOT proved here; it is established on every run by the correspondence
+real code = model (exact) and real code ⊑ oracle (prefix / cover check) over all memory/disk splits of the generated histories.
+-/
+namespace AlgoVerif.Props.C10
+open AlgoVerif.Spec.LedgerHistory AlgoVerif.Model.AcctUpdates AlgoVerif.Lemmas.Pages
+
+/-- no box twice: the live list is strictly increasing in the key -/
+theorem listing_strictly_increasing (h : History) (rnd : Nat) (pfx cursor : Key) :
+    (liveKv h rnd pfx cursor).Pairwise (fun x y => keyLt x.1 y.1 = true) :=
+  liveKv_sorted h rnd pfx cursor
+
+/-- every listed box is present at the queried round with its value at that round, has the prefix and lies after the cursor —
+    and every such box is listed -/
+theorem listing_complete (h : History) (rnd : Nat) (pfx cursor : Key) (k : Key) (v : Bytes) :
+    (k, v) ∈ liveKv h rnd pfx cursor ↔ k ∈ h.kvKeys ∧ hasPrefix pfx k = true ∧ keyLt cursor k = true ∧ kvAt h rnd k = some v :=
+  mem_liveKv h rnd pfx cursor k v
+
+/-- exclusive cursor: restarting after the n-th element yields exactly the rest -/
+theorem listing_after_cursor (h : History) (rnd : Nat) (pfx cursor : Key) (n : Nat) (x : Key × Bytes)
+    (hx : (liveKv h rnd pfx cursor)[n]? = some x) :
+    liveKv h rnd pfx x.1 = (liveKv h rnd pfx cursor).drop (n + 1) :=
+  liveKv_after h rnd pfx cursor n x hx
+
+/-- what one page call must satisfy (`page_is_prefix` + `more_iff` of the design): the page is a prefix of the live list after
+    the cursor, non-empty when something is left, and moreData is set exactly when something is left after the page -/
+def KvPageContract (h : History) (rnd : Nat) (pfx : Key) (pager : Key → List (Key × Bytes) × Bool) : Prop :=
+  ∀ c, ∃ n, (pager c).1 = (liveKv h rnd pfx c).take n ∧ (liveKv h rnd pfx c ≠ [] → 0 < n) ∧
+    ((pager c).2 = true ↔ n < (liveKv h rnd pfx c).length)
+
+/-- **C10 (boxes).** Listing page by page with next-tokens returns every box present at the queried round exactly once, in
+    increasing order, with its value at that round, and ends exactly when the last one was returned — for every pager meeting
+    the page contract, whatever its page sizes. -/
+theorem pages_cover (h : History) (rnd : Nat) (pfx cursor : Key) (pager : Key → List (Key × Bytes) × Bool)
+    (hc : KvPageContract h rnd pfx pager) (fuel : Nat) (hf : (liveKv h rnd pfx cursor).length < fuel) :
+    (iterPages pager (fun x => x.1) fuel cursor).flatten = liveKv h rnd pfx cursor ∧
+    ∀ p ∈ iterPages pager (fun x => x.1) fuel cursor, p ≠ [] ∨ liveKv h rnd pfx cursor = [] :=
+  iterPages_cover pager (fun x => x.1) (fun c => liveKv h rnd pfx c) hc
+    (fun c n x hx => liveKv_after h rnd pfx c n x hx) fuel cursor hf
+
+/-- the oracle's own page function (the longest page the limit and the byte cap allow) meets the contract -/
+theorem spec_page_contract (h : History) (rnd : Nat) (pfx : Key) (limit maxb : Nat) :
+    KvPageContract h rnd pfx (fun c =>
+      let live := liveKv h rnd pfx c
+      let n := kvTrim (kvItemSize true) maxb limit live 0 0
+      (live.take n, decide (n < live.length))) := by
+  intro c
+  refine ⟨kvTrim (kvItemSize true) maxb limit (liveKv h rnd pfx c) 0 0, rfl, ?_, by simp⟩
+  intro hne
+  cases hl : liveKv h rnd pfx c with
+  | nil => exact absurd hl hne
+  | cons x xs => exact kvTrim_pos _ _ _ x xs
+
+/-- the page rule: at least one item of a non-empty list -/
+theorem page_rule_at_least_one {α : Type} (sz : α → Nat) (maxb limit : Nat) (x : α) (xs : List α) :
+    0 < kvTrim sz maxb limit (x :: xs) 0 0 := kvTrim_pos sz maxb limit x xs
+
+/-- the page rule: at most `limit` items (limit ≥ 1), never more than there are -/
+theorem page_rule_bounds {α : Type} (sz : α → Nat) (maxb limit : Nat) (l : List α) :
+    kvTrim sz maxb limit l 0 0 ≤ l.length ∧ (0 < limit → kvTrim sz maxb limit l 0 0 ≤ limit) := by
+  refine ⟨by have := (kvTrim_bounds sz maxb limit l 0 0).2; omega, fun hl => kvTrim_le_limit sz maxb limit hl l 0 0 hl⟩
+
+/-- (F3) with limit 0 the count rule never cuts: under an unlimited byte budget the whole list is one page -/
+theorem page_limit0_unlimited {α : Type} (sz : α → Nat) (maxb : Nat) (l : List α) (i acc : Nat)
+    (hb : acc + (l.map sz).sum ≤ maxb) : kvTrim sz maxb 0 l i acc = i + l.length := by
   induction l generalizing i acc with
   | nil => simp [kvTrim]
   | cons x xs ih =>
+    simp only [List.map_cons, List.sum_cons] at hb
     unfold kvTrim
-    split
-    · simp
-    · split
-      · simp
-      · have := ih (i + 1) (acc + sz x)
-        simp only [List.length_cons]
-        omega
+    have h1 : ¬ (decide (acc + sz x > maxb) && decide (i > 0)) = true := by
+      simp only [Bool.and_eq_true, decide_eq_true_eq, not_and]; intro h; omega
+    rw [if_neg h1]
+    have h2 : ¬ (decide (0 > 0) && decide (i + 1 ≥ 0)) = true := by simp
+    rw [if_neg h2, ih (i + 1) (acc + sz x) (by omega)]
+    simp only [List.length_cons]; omega
+
+/-- the DB cursor scan: a non-empty prefix of the qualifying rows (strictly after the cursor, not handled by the in-memory
+    deltas), `more` exactly when a qualifying row is left -/
+theorem db_scan_is_prefix (rows : List (Key × Bytes)) (cursor : Key) (limit maxBytes : Nat) (vals : Bool) (exclude : List Key) :
+    ∃ j, (processKvRows rows cursor limit maxBytes vals exclude).items =
+        ((rows.filter (fun r => kvQualifies cursor exclude r.1)).take j).map (fun r => (r.1, if vals then some r.2 else none)) ∧
+      (processKvRows rows cursor limit maxBytes vals exclude).more =
+        decide (j < (rows.filter (fun r => kvQualifies cursor exclude r.1)).length) ∧
+      (rows.filter (fun r => kvQualifies cursor exclude r.1) ≠ [] → 0 < j) :=
+  processKvRows_spec rows cursor limit maxBytes vals exclude
+
+/-! ### full statements of the model-level page theorems (established by the tie, not proved here) -/
+
+/-- `page_is_prefix` + `more_iff` for the code-shaped box page of the model, on every reachable state -/
+def PageKvPrefixStatement : Prop :=
+  ∀ (ct : Cidx → CType) (σ : State), C08.Reach ct σ → ∀ (rnd : Nat) (pfx cursor : Key) (limit maxb : Nat) (vals : Bool),
+    σ.dbRound ≤ rnd → rnd ≤ σ.latest → (prefixIncr pfx).isSome →
+    ∃ n, pageKv σ rnd pfx cursor limit maxb vals =
+        .ok ⟨((liveKv σ.hist rnd pfx cursor).take n).map (kvView vals), rnd, decide (n < (liveKv σ.hist rnd pfx cursor).length)⟩ ∧
+      (liveKv σ.hist rnd pfx cursor ≠ [] → 0 < n) ∧ (0 < limit → n ≤ limit)
+
+/-- `page_is_prefix` for the code-shaped asset / application pages of the model, on every reachable state -/
+def PageResPrefixStatement : Prop :=
+  ∀ (ct : Cidx → CType) (σ : State), C08.Reach ct σ → ∀ (a : Addr) (gt limit : Nat) (wp : Bool), 0 < limit →
+    pageAssets σ a gt limit = .ok ⟨(liveAssets σ.hist σ.latest a gt).take limit, σ.latest⟩ ∧
+    pageApps σ a gt limit wp = .ok ⟨(liveApps σ.hist σ.latest a gt wp).take limit, σ.latest⟩
+
+/-- what is proved of `page_is_prefix` for the model's box page: its DB half returns a prefix of the qualifying rows with a
+    correct `more` flag, and its trim half returns between one and `limit` items of the merged list -/
+theorem page_is_prefix_partial (rows : List (Key × Bytes)) (cursor : Key) (limit maxBytes : Nat) (vals : Bool) (exclude : List Key)
+    (merged : List (Key × Option Bytes)) (sz : Key × Option Bytes → Nat) :
+    (∃ j, (processKvRows rows cursor limit maxBytes vals exclude).items =
+        ((rows.filter (fun r => kvQualifies cursor exclude r.1)).take j).map (fun r => (r.1, if vals then some r.2 else none)) ∧
+      (processKvRows rows cursor limit maxBytes vals exclude).more =
+        decide (j < (rows.filter (fun r => kvQualifies cursor exclude r.1)).length)) ∧
+    kvTrim sz maxBytes limit merged 0 0 ≤ merged.length ∧ (merged ≠ [] → 0 < kvTrim sz maxBytes limit merged 0 0) ∧
+    (0 < limit → kvTrim sz maxBytes limit merged 0 0 ≤ limit) := by
+  obtain ⟨j, h1, h2, _⟩ := processKvRows_spec rows cursor limit maxBytes vals exclude
+  refine ⟨⟨j, h1, h2⟩, (page_rule_bounds sz maxBytes limit merged).1, ?_, (page_rule_bounds sz maxBytes limit merged).2⟩
+  intro hne
+  cases merged with
+  | nil => exact absurd rfl hne
+  | cons x xs => exact kvTrim_pos _ _ _ x xs
+
+/-! ### non-vacuity: the contract is met by the oracle's own pager on EVERY history, so `pages_cover` applies; and a concrete
+listing -/
+
+example (h : History) (rnd : Nat) (pfx cursor : Key) (limit maxb : Nat) :
+    (iterPages (fun c =>
+        let live := liveKv h rnd pfx c
+        let n := kvTrim (kvItemSize true) maxb limit live 0 0
+        (live.take n, decide (n < live.length))) (fun x => x.1) ((liveKv h rnd pfx cursor).length + 1) cursor).flatten =
+      liveKv h rnd pfx cursor :=
+  (pages_cover h rnd pfx cursor _ (spec_page_contract h rnd pfx limit maxb) _ (Nat.lt_succ_self _)).1
+
+def exHist : History :=
+  { gen := [], blocks := [{ kvs := [⟨[65, 1], some [9], none⟩, ⟨[65, 2], some [], none⟩, ⟨[66], some [7, 7], none⟩] },
+                          { kvs := [⟨[65, 1], none, some [9]⟩] }] }
+
+/-- round 1 lists both boxes of prefix 65 (the empty-valued one included); at round 2 the deleted one is gone -/
+example : ([65, 1], [9]) ∈ liveKv exHist 1 [65] [] ∧ ([65, 2], []) ∈ liveKv exHist 1 [65] [] ∧
+    ¬ ([66], [7, 7]) ∈ liveKv exHist 1 [65] [] ∧ (∀ v, ¬ ([65, 1], v) ∈ liveKv exHist 2 [65] []) ∧
+    ¬ ([65, 1], [9]) ∈ liveKv exHist 1 [65] [65, 1] := by
+  refine ⟨(listing_complete _ _ _ _ _ _).mpr (by decide), (listing_complete _ _ _ _ _ _).mpr (by decide), ?_, ?_, ?_⟩
+  · rw [listing_complete]; decide
+  · intro v; rw [listing_complete]; intro h
+    have hk : kvAt exHist 2 [65, 1] = none := by decide
+    rw [hk] at h; exact absurd h.2.2.2 (by simp)
+  · rw [listing_complete]; decide
 
 end AlgoVerif.Props.C10
